@@ -77,8 +77,13 @@ func (vc *VC) inferPureBody(fn *ssa.Function) bool {
 				if !localRoot(ins.Map) {
 					return false
 				}
-			case *ssa.Send, *ssa.Select, *ssa.Go, *ssa.Defer, *ssa.RunDefers, *ssa.MakeClosure:
+			case *ssa.Send, *ssa.Select, *ssa.Go, *ssa.MakeClosure:
 				return false
+			case *ssa.RunDefers:
+			case *ssa.Defer:
+				if !vc.pureCallee(ins.Common()) {
+					return false
+				}
 			case *ssa.UnOp:
 				if ins.Op == token.ARROW {
 					return false
@@ -103,25 +108,32 @@ func (vc *VC) inferPureBody(fn *ssa.Function) bool {
 						return false
 					}
 				}
-				name, callee := vc.calleeName(c)
-				fc := vc.C.Funcs[name]
-				if fc == nil && callee != nil && callee.Origin() != nil {
-					fc = vc.C.Funcs[CanonName(callee.Origin())]
-				}
-				if fc != nil && fc.Pure && len(fc.Updates) == 0 && !mentionsGhostState(vc, fc) {
-					continue
-				}
-				if fc != nil && fc.HasMod {
+				if !vc.pureCallee(c) {
 					return false
 				}
-				if callee != nil && vc.P.InRepo(FuncPkgPath(callee)) && vc.inferPure(callee) {
-					continue
-				}
-				return false
 			}
 		}
 	}
 	return true
+}
+
+// pureCallee: the callee is pure by contract (and says nothing about ghost state) or by inference.
+func (vc *VC) pureCallee(c *ssa.CallCommon) bool {
+	if _, isBuiltin := c.Value.(*ssa.Builtin); isBuiltin {
+		return false
+	}
+	name, callee := vc.calleeName(c)
+	fc := vc.C.Funcs[name]
+	if fc == nil && callee != nil && callee.Origin() != nil {
+		fc = vc.C.Funcs[CanonName(callee.Origin())]
+	}
+	if fc != nil && fc.Pure && len(fc.Updates) == 0 && !mentionsGhostState(vc, fc) {
+		return true
+	}
+	if fc != nil && fc.HasMod {
+		return false
+	}
+	return callee != nil && vc.P.InRepo(FuncPkgPath(callee)) && vc.inferPure(callee)
 }
 
 func mentionsGhostState(vc *VC, fc *FuncContract) bool {
